@@ -90,11 +90,18 @@ CLAIMED = {
         "text": "EMISSION SIDE ONLY - that layout reserves an entry in the table the writer picks, and whole-image equality, are not decided. For every place, section address (odd or even), symbol value, addend, load base, symbol class and RELR on/off CBMC proves on the real code: a place that is to hold a link-time address in a PIE/static-PIE/shared output is covered by exactly one relative dynamic relocation - an even RELR address entry equal to the place with the address stored in place, or a RELA {place, R_*_RELATIVE, S+A} - so that what the loader leaves there is (S+A)+base for every base; absolute symbols and places in non-allocated sections get no dynamic relocation and hold S+A; a full table is reported and nothing is written. Loop-free code, all inputs symbolic: a proof.",
         "note": "Trusted: glibc's RELR/RELA relative-relocation rules; R_*_RELATIVE numbers. Assumed: resolution.raw_value != 0 (zero takes the string-merge lookup through Layout); interposable and ifunc arms excluded (stubbed by panicking functions); verify_allocations_message and format stubbed. Not decided: the RELR/RELA choice made at allocation time (by offset parity) versus at write time (by address parity), GOT callers, RELR bitmaps (none emitted).",
     },
+    "C23": {
+        "category": "proof",
+        "design_ref": "DESIGN.md section 6, C23",
+        "technique": "Kani full-domain harnesses running the real <Elf as Platform>::allocate_resolution, <Elf as Platform>::create_resolution and TableWriter::process_resolution::<ElfX86_64> against one another for every 16-bit ValueFlags value satisfying stated flag invariants x output kind x RELR on/off (Layout/ElfArgs as nondeterministic storage, tracing stubbed as disabled)",
+        "text": "PER-SYMBOL RESOLUTION KERNEL ONLY - relocation-driven allocations, section sizes, symbol/version/dynamic tables and eh_frame accounting are not decided. The internal 'insufficient/excessive allocation' errors are disagreements between three passes; for one symbol's GOT / PLT / dynamic-relocation entries all three are within reach and CBMC proves on the real code, for every flag combination layout can produce, every output kind, with and without packed relative relocations: the GOT and PLT address cursors advance by exactly the bytes reserved, and the writer given tables of exactly the reserved sizes succeeds and leaves .got, .plt.got, .rela.plt, .rela.dyn (general and relative) and .relr.dyn empty; for TLS symbols each TPOFF/DTPMOD/DTPOFF/TLSDESC relocation sits on the slot the Resolution accessors hand to relocation processing. A relation between passes over a finite flag space with symbolic addresses: a proof.",
+        "note": "Trusted/assumed: the flag invariants (which ValueFlags combinations layout produces) were derived by reading resolution_flags(), process_relocation and symbol_db.rs and are listed in the evidence - a combination outside them is not checked; undefined weak TLS symbols excluded; x86-64 PLT writer only; GOT 8-aligned, |GOT-PLT| < 2^30. Not decided: process_relocation's RELR/RELA counting by offset parity versus the writer's choice by address parity (a known mismatch for odd section addresses, DESIGN.md section 9).",
+    },
 }
 
 PENDING = {
     pid: "check under construction in this session (planned claim, see DESIGN.md section 6); not claimed until its obligations run green"
-    for pid in ["C08", "C11", "C15", "C22", "C23", "C30", "C36"]
+    for pid in ["C08", "C11", "C15", "C22", "C30", "C36"]
 }
 
 NOT_APPLICABLE = {
